@@ -107,6 +107,10 @@ FilterCopyClauses(e) ==
       \* selected descendant) keeps its mode, owner, xattrs and modification time: nothing is written to it or below it
       unselectedDirs == {p \in PathsOf(e.before) : Has(tree, p) /\ At(tree, p).t = "dir" /\ p \notin naive /\ p \notin incr}
   IN Cl(~e.ok, "C16.filteredCopyFailed")
+     \* conformance of the algorithm-layer model CopyFilterMC (pattern lists enumerated by TLC on the model's own tree): the real
+     \* copy writes exactly the set the ALGORITHM model writes - also where both depart from the reference (the recorded matcher
+     \* finding).  Not a verdict of a property: a disagreement without a violation makes the run inconclusive
+     \cup Cl("model" \in DOMAIN e /\ e.ok /\ got # {e.model.written[k] : k \in DOMAIN e.model.written}, "MODEL.copyWrittenSetDiffers")
      \cup (IF ~e.ok THEN {}
            ELSE IF stale THEN
                 Cl(\E p \in unselected : ~(Has(e.after, p) /\ At(e.after, p).ino = At(e.before, p).ino /\ At(e.after, p).c = At(e.before, p).c
